@@ -33,8 +33,10 @@ def run(prop, tier, seed, replay=None):
         "IntFactorDom::set (prime divisors of q^n - 1 and of n) is modelled by trial division (C12)",
         "random choices (SplitFactor, find_irred_randomial, give_random_prim_root) are not reproduced: their outputs are decided by the certificate checkers only; "
         "termination of the random searches is probabilistic and not a theorem",
-        "irreducibility of factors/moduli whose brute-force oracle would need more than 40000 trial divisors is decided by the model of the distinct-degree criterion "
-        "(criterion proved at the Mathlib level: ddf_test_correct; the refinement of the list model to it is not proved)",
+        "the theorems about the oracle, the checkers and the model of is_irreducible (bruteIrreducible_correct, factor_list_checker_decides, sqrfree_checker_sound, "
+        "is_irreducible_model_correct) are stated for the coefficient record fieldOps K of a Mathlib field; the driver runs the same polymorphic functions on the records "
+        "fpOps p / fqOps p k irr (residues 0..p-1, p-adic codes): that these are the operations of ZMod p / GF(p^k) read through val is not proved",
+        "is_irreducible2, sqrfree (beyond separable inputs), order, is_prim_root: the refinement of their list models to the proved Mathlib-level criteria is not proved (correspondence only)",
     ]
     L = flow.lean_stage(V, ["GivaroModel.Props.C09"], "GivaroModel/Props/C09.lean")
     cfgs = ("S", "R") if tier == "thorough" else ("S",)
